@@ -263,6 +263,11 @@ func (f *FSM) MustCopyWithState(state State) *FSM {
 				exists = true
 			}
 		}
+		// Finish states (canceled, collected) are valid states of the machine too,
+		// a dumped machine must be restorable in any state it can reach
+		if !exists && f.IsFinState(state) {
+			exists = true
+		}
 		if !exists {
 			panic(fmt.Sprintf("cannot set state, not exists  \"%s\" for \"%s\"", state, f.name))
 		}
@@ -454,6 +459,15 @@ func (f *FSM) StatesList() (states []State) {
 		for state := range allStates {
 			states = append(states, state)
 		}
+	}
+
+	return
+}
+
+// FinStatesList returns finish (exit) states of the machine
+func (f *FSM) FinStatesList() (states []State) {
+	for state := range f.finStates {
+		states = append(states, state)
 	}
 
 	return
